@@ -16,7 +16,7 @@ UNIT = {
         ('@file', 'prelude_iter.rs'),
         ('@raw', '}\n'),
         ('@raw', 'pub mod fp {\n' + MOD_HEAD),
-        ('@broadcast', ['super::itax::axiom_iter_clone', 'super::itax::axiom_into_atom_id']),
+        ('@broadcast', ['super::itax::axiom_iter_clone', 'super::itax::axiom_into_atom_id', 'super::itax::axiom_string_of_view', 'super::itax::axiom_string_of_inv']),
         (CI, ['enum PatternChar']),
         ('@raw', 'use PatternChar::*;\n'),
         (CI, ['impl PatternChar', 'fn char_value'], {'ret': 'r', 'ensures': ['r == self.char_value_spec()']}),
@@ -34,15 +34,72 @@ UNIT = {
             # the same, on the abstract items used by the reference parser
             'abs_items(final(items)@) =~= fold3(abs_items(old(items)@))',
         ]}),
-        # inner expressions build Strings (collect over chars): outside Verus's subset, contract ASSUMED
-        (PARSE, ['impl BracketAtom', 'fn parse_inner'], {'ret': 'r', 'attrs': ['#[verifier::external_body]'],
+        # inner expressions `[.x.]` `[=x=]` `[:x:]`: the three scanning loops against the reference definition
+        # (the first `d]` ends the expression; the content is taken literally)
+        (PARSE, ['impl BracketAtom', 'fn parse_inner'], {'ret': 'r',
+            'attrs': ['#[verifier::loop_isolation(false)]', '#[verifier::allow_complex_invariants]'],
+            'entry_snapshots': ['i'],
+            'token_rewrites': [('value . into_iter ( ) . map ( PatternChar :: char_value ) . collect ( )', 'verif_collect_chars(value)', 3)],
+            'ghost_before': [
+                ('value . truncate (', 'let ghost verif_full = value@; proof { let w = verif_full.subrange(verif_full.len() - 2, verif_full.len() as int); assert(w[0] == verif_full[verif_full.len() - 2]); assert(w[1] == verif_full[verif_full.len() - 1]); assert(verif_full =~= verif_entry_i.remaining().skip(1).subrange(0, verif_full.len() as int)); }', 3),
+                ('return Some ( ( BracketAtom :: CollatingSymbol (', 'proof { lemma_inner_found(verif_entry_i.remaining(), verif_full, value@); }'),
+                ('return Some ( ( BracketAtom :: EquivalenceClass (', 'proof { lemma_inner_found(verif_entry_i.remaining(), verif_full, value@); }'),
+                ('return Some ( ( BracketAtom :: CharClass (', 'proof { lemma_inner_found(verif_entry_i.remaining(), verif_full, class@); }'),
+            ],
             'requires': ['i.obeys_prophetic_iter_laws()', 'i.decrease() is Some'],
             'ensures': [
                 'r is None ==> ref_inner(i.remaining()) is None',
                 'r is Some ==> r->Some_0.1.obeys_prophetic_iter_laws() && r->Some_0.1.decrease() is Some && r->Some_0.1.decrease()->0 <= i.decrease()->0',
                 'r is Some ==> exists|n: int| #![trigger i.remaining().skip(n)] 0 < n <= i.remaining().len() && ref_inner(i.remaining()) == Some((r->Some_0.0, n)) && r->Some_0.1.remaining() == i.remaining().skip(n)',
                 'r is Some ==> !(r->Some_0.0 is Char)',
-            ]}),
+            ],
+            'loops': {0: {
+                'ensures': ['forall|j: int| !closes_at(verif_entry_i.remaining().skip(1), \'.\', j)'],
+                'invariant_except_break': [
+                    'i.obeys_prophetic_iter_laws()',
+                    'i.decrease() is Some',
+                    'verif_entry_i.remaining().len() > 0',
+                    # what has been collected is the beginning of what follows the delimiter, the iterator stands right after it,
+                    # and no pair `d]` lies within it
+                    'value@.len() <= verif_entry_i.remaining().len() - 1',
+                    'value@ == verif_entry_i.remaining().skip(1).subrange(0, value@.len() as int)',
+                    'i.remaining() == verif_entry_i.remaining().skip(1 + value@.len() as int)',
+                    'forall|j: int| 0 <= j && j + 1 < value@.len() ==> !closes_at(verif_entry_i.remaining().skip(1), \'.\', j)',
+                    'i.decrease()->0 <= verif_entry_i.decrease()->0',
+                ],
+                'decreases': ['i.decrease()->0'],
+            }, 1: {
+                'ensures': ['forall|j: int| !closes_at(verif_entry_i.remaining().skip(1), \'=\', j)'],
+                'invariant_except_break': [
+                    'i.obeys_prophetic_iter_laws()',
+                    'i.decrease() is Some',
+                    'verif_entry_i.remaining().len() > 0',
+                    # what has been collected is the beginning of what follows the delimiter, the iterator stands right after it,
+                    # and no pair `d]` lies within it
+                    'value@.len() <= verif_entry_i.remaining().len() - 1',
+                    'value@ == verif_entry_i.remaining().skip(1).subrange(0, value@.len() as int)',
+                    'i.remaining() == verif_entry_i.remaining().skip(1 + value@.len() as int)',
+                    'forall|j: int| 0 <= j && j + 1 < value@.len() ==> !closes_at(verif_entry_i.remaining().skip(1), \'=\', j)',
+                    'i.decrease()->0 <= verif_entry_i.decrease()->0',
+                ],
+                'decreases': ['i.decrease()->0'],
+            }, 2: {
+                'ensures': ['forall|j: int| !closes_at(verif_entry_i.remaining().skip(1), \':\', j)'],
+                'invariant_except_break': [
+                    'i.obeys_prophetic_iter_laws()',
+                    'i.decrease() is Some',
+                    'verif_entry_i.remaining().len() > 0',
+                    # what has been collected is the beginning of what follows the delimiter, the iterator stands right after it,
+                    # and no pair `d]` lies within it
+                    'value@.len() <= verif_entry_i.remaining().len() - 1',
+                    'value@ == verif_entry_i.remaining().skip(1).subrange(0, value@.len() as int)',
+                    'i.remaining() == verif_entry_i.remaining().skip(1 + value@.len() as int)',
+                    'forall|j: int| 0 <= j && j + 1 < value@.len() ==> !closes_at(verif_entry_i.remaining().skip(1), \':\', j)',
+                    'i.decrease()->0 <= verif_entry_i.decrease()->0',
+                ],
+                'decreases': ['i.decrease()->0'],
+            }},
+        }),
         (PARSE, ['impl Bracket', 'fn parse'], {'ret': 'r',
             'attrs': ['#[verifier::loop_isolation(false)]', '#[verifier::allow_complex_invariants]'],
             'rewrites': ['or-pattern-guard-split'],
